@@ -142,4 +142,20 @@ theorem swp_perm {a : Array Elem} {i j : Nat} (hi : i < a.size) (hj : j < a.size
     rw [set_self_eq hi] at this
     exact this
 
+
+/-! ### `count - 1` in `size_t` -/
+
+theorem wrapSub1_of_pos {n : Nat} (h1 : 1 ≤ n) (h2 : n < sizeMod) : wrapSub1 n = n - 1 := by
+  unfold wrapSub1
+  rw [show n + sizeMod - 1 = (n - 1) + sizeMod by omega, Nat.add_mod_right,
+    Nat.mod_eq_of_lt (by omega)]
+
+theorem wrapSub1_zero : wrapSub1 0 = sizeMod - 1 := by
+  unfold wrapSub1
+  have : 0 < sizeMod := by unfold sizeMod; omega
+  rw [Nat.zero_add, Nat.mod_eq_of_lt (by omega)]
+
+theorem ten_le_wrapSub1_zero : 10 ≤ wrapSub1 0 := by
+  rw [wrapSub1_zero]; unfold sizeMod; omega
+
 end MgProof.C10
